@@ -721,6 +721,14 @@ func c14CheckSendJoin(ctx *vfCtx, c c14RespCase) {
 				ctx.Fail("C14/send-join/returned-events-differ/unparsable", "returned event does not parse: %v", perr)
 				return
 			}
+			// what is handed on is the event as it was PARSED (the keys a sender cannot vouch for are dropped
+			// on receipt: callers load these lists as trusted events)
+			for _, k := range []string{"unsigned", "age_ts", "outlier", "destinations"} {
+				if _, has := t.get(k); has {
+					ctx.Fail("C14/send-join/returned-json-keeps-key-stripped-on-receipt/"+k, "the list returned by CheckSendJoinResponse carries an event with the sender-supplied member %q: %.300s", k, raw)
+					return
+				}
+			}
 			if li == 0 {
 				ga = append(ga, raEventID(c.Version, t))
 			} else {
